@@ -44,6 +44,10 @@ def generate(tier, seed, work, stats):
             d = singles[j]
             cases.append(dict(prodsA=c["prods"], prodsB=d["prods"], vpoolA=c["vpool"], vpoolB=d["vpool"] if j != i else c["vpool"],
                               tpool="ab", same=(j == i), family="CFGGen-pairs", L=4))
+            if (i + j) % 9 == 0:
+                # variables that carry the values of the terminals, on one side or on both
+                cases.append(dict(prodsA=c["prods"], prodsB=d["prods"], vpoolA="clash", vpoolB="clash" if (i + j) % 2 else d["vpool"],
+                                  tpool="ab", same=(j == i), family="CFGGen-pairs-clash", L=4))
             if j != i and (i + j) % 13 == 0:
                 # an operand whose productions all have empty bodies and none of them belongs to the start symbol (empty
                 # language, not the epsilon language), on either side
